@@ -590,3 +590,45 @@ padded!(misc_padded_ige, P4w2, 4, 8, ige::Encryptor<P4w2>, ige::Decryptor<P4w2>,
 padded!(misc_padded_cfb, P4w1, 4, 4, cfb_mode::Encryptor<P4w1>, cfb_mode::Decryptor<P4w1>, Iso7816);
 #[cfg(not(kani))]
 padded!(misc_padded_ofb, P8w3, 8, 8, ofb::OfbCore<P8w3>, ofb::OfbCore<P8w3>, Pkcs7);
+
+// clones of every remaining Clone type, taken after a random history incl. mid-block positions of the buffered types
+#[cfg(not(kani))]
+macro_rules! clone_bytes {
+    ($h:ident, $cipher:ident, $b:expr, $ty:ty, $call:ident) => {
+        pub fn $h() {
+            let c = $cipher { k: fill() };
+            let iv: [u8; $b] = fill();
+            let mk = || <$ty>::inner_iv_init(c.clone(), &iv.into());
+            let data: [u8; 5 * $b + 3] = fill();
+            let h1 = (nd::any::<u8>() as usize) % (2 * $b + 2);
+            let h2 = (nd::any::<u8>() as usize) % (2 * $b + 1);
+            let h3 = (nd::any::<u8>() as usize) % (2 * $b + 1);
+            let mut a = mk();
+            let mut t = data; a.$call(&mut t[..h1]);
+            let mut b = a.clone();
+            let mut o2 = data; let mut o3 = data;
+            b.$call(&mut o3[h1..h1 + h3 / 2]);
+            a.$call(&mut o2[h1..h1 + h2]);
+            b.$call(&mut o3[h1 + h3 / 2..h1 + h3]);
+            let mut fa = mk(); let mut e2 = data; fa.$call(&mut e2[..h1]); fa.$call(&mut e2[h1..h1 + h2]);
+            let mut fb = mk(); let mut e3 = data; fb.$call(&mut e3[..h1]); fb.$call(&mut e3[h1..h1 + h3]);
+            assert!(o2[h1..] == e2[h1..] && o3[h1..] == e3[h1..], "clone / original diverged from independent replays");
+        }
+    };
+}
+#[cfg(not(kani))]
+clone_bytes!(misc_clone_cfbbuf_enc, P4w2, 4, cfb_mode::BufEncryptor<P4w2>, encrypt);
+#[cfg(not(kani))]
+clone_bytes!(misc_clone_cfbbuf_dec, P8w3, 8, cfb_mode::BufDecryptor<P8w3>, decrypt);
+#[cfg(not(kani))]
+clone_block!(misc_clone_ige_dec, P4w2, 4, 8, ige::Decryptor<P4w2>, decrypt_blocks);
+#[cfg(not(kani))]
+clone_block!(misc_clone_cfb_enc, P4w2, 4, 4, cfb_mode::Encryptor<P4w2>, encrypt_blocks);
+#[cfg(not(kani))]
+clone_block!(misc_clone_cfb8_dec, P4w2, 1, 4, cfb8::Decryptor<P4w2>, decrypt_blocks);
+#[cfg(not(kani))]
+clone_stream!(misc_clone_ctr32le, P4w2, 4, ctr::Ctr32LE<P4w2>);
+#[cfg(not(kani))]
+clone_stream!(misc_clone_ctr64be, P8w3, 8, ctr::Ctr64BE<P8w3>);
+#[cfg(not(kani))]
+clone_stream!(misc_clone_ctr128le, P16w2, 16, ctr::Ctr128LE<P16w2>);
